@@ -183,7 +183,9 @@ def make_case(rng, mach, idx):
     elif extra < 0.19 and 'bind' not in chosen:
         # pu-step / pu-offset / affinity: rejected together with the default bind, accepted with an empty one
         cmd.append(rng.choice(['--pika:pu-step=2', '--pika:pu-offset=1', '--pika:affinity=core']))
-        if rng.random() < 0.5:
+        # (an out-of-range thread count is only an *invalid* value while a binding mode is in force:
+        # with an empty bind pika accepts it — that is C15's finding — so never combine the two)
+        if rng.random() < 0.5 and not (invalid and invalid[0] == 'threads'):
             env['PIKA_BIND'] = ''
     elif extra < 0.21 and 'scheduler' not in chosen:
         cmd.append('--pika:scheduler=local-priority')
